@@ -190,7 +190,7 @@ impl Family for Repro {
             for _ in 0..reruns {
                 let _ = std::fs::remove_file(dir.join("gen1.stdin"));
                 let mut argv: Vec<String> = names.clone();
-                argv.extend(["--diagnostic-format".into(), "json".into(), "-G".into(), format!("{},k=v", gen.display())]);
+                argv.extend(["--diagnostic-format".into(), "json".into(), "-G".into(), format!("{},namespace=Demo.Generated,visibility=internal,nullable,indent=4,line-ending=lf,header=none,k=v", gen.display())]);
                 let res = crate::fam_driver::run_limited(std::process::Command::new(crate::fam_driver::slicec_bin()).args(&argv).current_dir(&dir), std::time::Duration::from_secs(20));
                 stderrs.push(crate::util::hash_bytes(&res.stderr).to_string());
                 requests.push(std::fs::read(dir.join("gen1.stdin")).map(|b| crate::util::hash_bytes(&b).to_string()).unwrap_or_else(|_| "none".into()));
